@@ -281,3 +281,19 @@ Fixpoint admissible (t : tree) : Prop :=
                 /\ admissible l /\ admissible r
   end.
 End ProgG.
+
+(* boolean check of admissibility for an axis-order assignment given as a table
+   (leaf list of the node -> order); used to judge what sort_contraction_indices produced *)
+Definition io_tbl (tbl : list (list nat * list ix)) (t : tree) : list ix :=
+  match find (fun kv => list_eqb Nat.eqb (fst kv) (leaves t)) tbl with
+  | Some kv => snd kv
+  | None => []
+  end.
+Fixpoint nodup_b (l : list nat) : bool :=
+  match l with [] => true | x :: l' => negb (memb x l') && nodup_b l' end.
+Fixpoint admissible_b (n : net) (sl : list slinfo) (io : tree -> list ix) (t : tree) : bool :=
+  match t with
+  | Leaf _ => true
+  | Node l r => nodup_b (io t) && set_eqb (io t) (lkeys (sub_legs n sl t))
+                && admissible_b n sl io l && admissible_b n sl io r
+  end.
